@@ -405,6 +405,17 @@ def select_body(fn, cfg):
                 return out, tail
             out.append(s)
         raise TranslateError("assignment to %s not found" % sel["name"])
+    if sel["kind"] == "between":
+        # the statements strictly after the (unique) top-level statement whose source text is sel["after"], up to and
+        # excluding the last statement of the function; that last statement is returned as the tail (checked against
+        # the recorded `tail_idiom`).  Added for C19 (module Orch): the next-step arithmetic of the orchestration script.
+        texts = [ast.unparse(s) for s in body]
+        if texts.count(sel["after"]) != 1:
+            raise TranslateError("marker statement not found exactly once: %r" % sel["after"])
+        i = texts.index(sel["after"])
+        if i + 1 > len(body) - 1:
+            raise TranslateError("nothing between the marker statement and the last statement")
+        return body[i + 1:-1], body[-1:]
     raise TranslateError("bad select")
 
 
